@@ -395,6 +395,10 @@ def b_copy_(P, s, a, b, c, name):
                 d = P.vals[i]
                 x = gen.clamp_finite(_values(list(d.shape), d.dtype, 4800 + b, 1.0).to(torch.float64) * float(deq(d).abs().max().to(torch.float64) + 1e-3), d.dtype)
                 src_ = x if b % 2 == 0 else quantize_weight(x, d.qtype, d.axis, d._group_size)
+                if b % 4 == 3 and d.ndim == 2 and d._group_size is None and min(d.shape) > 1:
+                    # a low-bit source quantized along the OTHER axis (same payload shape, another layout of the scales)
+                    src_ = quantize_weight(x, d.qtype, -1 if d.axis == 0 else 0, None)
+                    return dict(f=lambda d, s_: d.copy_(s_), ops=[("p", i), ("x", 0)], extra=[("fresh", src_)], klass="requant", inplace=0)
                 # (a source quantized the same way is COPIED: codes, scales and zero-points arrive unaltered)
                 return dict(f=lambda d, s_: d.copy_(s_), ops=[("p", i), ("x", 0)], extra=[("fresh" if isq(src_) else "plain", src_)], klass="move" if isq(src_) else "requant", inplace=0)
         i = P.pick(s[0], lambda v: isinstance(v, QBytesTensor) and v.ndim >= 1)
@@ -869,7 +873,7 @@ def pair_cases():
     for src in sources:
         for opname in PAIR_OPS:
             for a in range(36):
-                for b in range(3):
+                for b in range(4):
                     for c in range(2):
                         cases.append({"steps": [src, {"op": opname, "s": [0, 1, 2], "a": a, "b": b, "c": c}]})
     return cases
